@@ -325,6 +325,11 @@ def run(rep, tier):
         sp.simplify(args[np_ + "->leftChild"] - addp - S(np_ + "->rightChild->probability")) == 0
     own = [e for e in fad.events if e["kind"] == "store" and e["target"] == np_ + "->probability" and not e["guards"] and not e.get("not")]
     oka = oka and len(own) == 1 and sp.simplify(own[0]["value"] - addp - S(np_ + "->probability")) == 0
+    if oka:
+        # P(right) must be read before the right child is shifted itself (the recursion rewrites rightChild->probability through the pointer)
+        li_ = [i_ for i_, e in enumerate(fad.events) if e["kind"] == "call" and len(e["args"]) >= 2 and str(e["args"][-2]) == np_ + "->leftChild"]
+        ri_ = [i_ for i_, e in enumerate(fad.events) if e["kind"] == "call" and len(e["args"]) >= 2 and str(e["args"][-2]) == np_ + "->rightChild"]
+        oka = len(li_) == 1 and len(ri_) == 1 and li_[0] < ri_[0]
     rep.check(oka, "R14.5", "orientation|shift", "every node gets add; left subtree receives add + P(right), right subtree add", "addProbabilityFromRightSubtreeToLeftSubtree recursion is %s" % {k_: str(v_) for k_, v_ in args.items()}, ad.loc(), sample=True)
     fmv = Fold(mv, record_calls=r"::moveProbabilitiesFromRightSubtreesOneLevelUp$").run()
     cmv = getattr(fmv, "conds", {})
@@ -341,6 +346,13 @@ def run(rep, tier):
             good = len(st_) == 1 and sp.simplify(st_[0]["value"] - (S(nm_ + "->probability") - Fn("getValue")(S(nm_ + "->leftLeaf")) / S("sum_of_values"))) == 0 and not rc_
         else:
             good = len(st_) == 1 and st_[0]["value"] == S(nm_ + "->rightChild->probability") and rc_ == [nm_ + "->leftChild", nm_ + "->rightChild"]
+            if good:
+                # the right child's value is copied BEFORE the recursion rewrites it (the callee changes *rightChild through the pointer)
+                rr = [e for e in fmv.events if e["kind"] == "call" and str(e["args"][-1]) == nm_ + "->rightChild" and executes(e, None, A, lastlevel, cmv)]
+                if not (len(rr) == 1 and fmv.events.index(st_[0]) < fmv.events.index(rr[0])):
+                    okm, whym = False, ("an inner node copies the right child's value after the recursion into the right child has already replaced it by that child's own "
+                                        "threshold: the node's threshold is no longer a + P(right subtree)")
+                    break
         if not good:
             okm, whym = False, "for a %s node it assigns %s and recurses into %s" % ("last-level" if last else "inner", [str(e["value"])[:80] for e in st_], rc_)
             break
